@@ -20,7 +20,8 @@ def make(shape, cards, names=None, abstract=None, types=None, fcards=None, attrs
     """attrs: [(feature index, name, value)]; trees: constraint trees over the feature names."""
     n = R.n_features(shape)
     names = names or ['F%d' % i for i in range(n)]
-    ctcs = [R.ctc('Constraint %d' % i, t) for i, t in enumerate(trees or [])]
+    cn = R.ctc_names(len(trees or []), n + len(cards), 'Constraint %d')
+    ctcs = [R.ctc(cn[i], t) for i, t in enumerate(trees or [])]
     m = R.build(shape, cards, names=names, abstract=abstract, types=types, fcards=fcards, ctcs=ctcs)
     if attrs:
         feats = _index(m)
